@@ -234,22 +234,40 @@ func (m *Exporter) roundTrip(w *engine.World, prep bool, when string) {
 		}
 	}
 	// (3) durable queries answer identically on source and target
+	type named struct {
+		name string
+		f    func(n *engine.Node) []engine.KV
+	}
+	qs := []named{{"builtin", func(n *engine.Node) []engine.KV { return builtinQueries(w, n) }}}
 	for _, mod := range w.Mods {
-		q, ok := mod.(engine.Querier)
-		if !ok {
-			continue
+		if q, ok := mod.(engine.Querier); ok {
+			q := q
+			qs = append(qs, named{mod.Name(), func(n *engine.Node) []engine.KV { return q.DurableQueries(w, n) }})
 		}
-		a := q.DurableQueries(w, src)
-		b := q.DurableQueries(w, tgt)
+	}
+	for _, mod := range qs {
+		a := mod.f(src)
+		b := mod.f(tgt)
 		w.Count("C12.query_comparisons", int64(len(a)))
 		bm := map[string]string{}
 		for _, kv := range b {
 			bm[kv.K] = kv.V
 		}
+		am := map[string]bool{}
+		for _, kv := range a {
+			am[kv.K] = true
+		}
+		for _, kv := range b {
+			if !am[kv.K] {
+				w.Violate("C12", "query-differs/"+mod.name+"/"+queryClass(kv.K)+"/"+variant,
+					"after re-import (%s export of height %d) the re-imported chain answers a query %q the source has no object for: %s", variant, h, kv.K, clip(kv.V))
+				break
+			}
+		}
 		for _, kv := range a {
 			if got, ok := bm[kv.K]; !ok || got != kv.V {
-				w.Violate("C12", "query-differs/"+mod.Name()+"/"+queryClass(kv.K)+"/"+variant,
-					"after re-import (%s export of height %d) the query %q answers differently: source %s ; re-imported %s", variant, h, kv.K, clip(kv.V), clip(got))
+				w.Violate("C12", "query-differs/"+mod.name+"/"+queryClass(kv.K)+"/"+variant,
+					"after re-import (%s export of height %d) the query %q answers differently: %s", variant, h, kv.K, strDiff(kv.V, got))
 				break
 			}
 		}
@@ -291,4 +309,27 @@ func rawDiff(a, b json.RawMessage) string {
 		return s[lo:hi]
 	}
 	return fmt.Sprintf("first difference at byte %d: exported ...%s... re-exported ...%s...", i, cut(x), cut(y))
+}
+
+// strDiff shows two strings around their first difference.
+func strDiff(x, y string) string {
+	i := 0
+	for i < len(x) && i < len(y) && x[i] == y[i] {
+		i++
+	}
+	lo := i - 160
+	if lo < 0 {
+		lo = 0
+	}
+	cut := func(s string) string {
+		hi := i + 200
+		if hi > len(s) {
+			hi = len(s)
+		}
+		if lo > len(s) {
+			return ""
+		}
+		return s[lo:hi]
+	}
+	return fmt.Sprintf("first difference at byte %d: source ...%s... re-imported ...%s...", i, cut(x), cut(y))
 }
